@@ -157,6 +157,8 @@ package sqlite
 //@ ensures err != nil ==> result == nil
 
 //@ func (*SqliteStoreWorker).hearbeatLocks
+// the lease is renewed from the server clock of the renewing request (C07, C09: claim or last timely heartbeat plus ttl)
+//@ submit-requires [C07 C09 C13] cmd.Time >= now0() && cmd.Time <= now()
 //@ props C16 C17 C09 C02 C20
 //@ records handler
 //@ nopanic C13
@@ -168,6 +170,8 @@ package sqlite
 //@ ensures err != nil ==> result == nil
 
 //@ func (*SqliteStoreWorker).timeoutLocks
+// the sweep asks with the server clock of its own step
+//@ submit-requires [C09 C13] cmd.Timeout >= now0() && cmd.Timeout <= now()
 //@ props C16 C17 C09 C02 C20
 //@ records handler
 //@ nopanic C13
@@ -238,6 +242,8 @@ package sqlite
 //@ loop 1 invariant rangeindex + 1 <= len(cmd.CurrentStates) && currentStates == maskprefix(cmd.CurrentStates, rangeindex + 1)
 
 //@ func (*SqliteStoreWorker).heartbeatTasks
+// the lease is renewed from the server clock of the renewing request (C07, C09: claim or last timely heartbeat plus ttl)
+//@ submit-requires [C07 C09 C13] cmd.Time >= now0() && cmd.Time <= now()
 //@ props C16 C17 C07 C02 C20
 //@ records handler
 //@ nopanic C13
@@ -308,6 +314,8 @@ package sqlite
 //@ ensures err != nil ==> txlog() == "" || txlog() == "begin,perform-err,rolledback" || txlog() == "begin,perform-err,rollback-failed" || txlog() == "begin,perform-ok,commit-failed"
 
 //@ func (*SqliteStoreWorker).readPromises
+// the sweep asks with the server clock of its own step
+//@ submit-requires [C04 C03 C13] cmd.Time >= now0() && cmd.Time <= now()
 //@ props C16 C17 C02 C20 C01 C04
 //@ records handler
 // every returned record is the row it was scanned from, column by column (C01, C20: what a sweep or a search reports is what is stored)
@@ -349,6 +357,8 @@ package sqlite
 //@ ensures err == nil ==> result != nil
 
 //@ func (*SqliteStoreWorker).readSchedules
+// the sweep asks with the server clock of its own step
+//@ submit-requires [C10 C13] cmd.NextRunTime >= now0() && cmd.NextRunTime <= now()
 //@ props C16 C17 C02 C20 C10
 //@ records handler
 // every returned record is the row it was scanned from, column by column (C01, C20: what a sweep or a search reports is what is stored)
@@ -387,6 +397,8 @@ package sqlite
 //@ ensures err == nil ==> result != nil
 
 //@ func (*SqliteStoreWorker).readTasks
+// the sweep asks with the server clock of its own step
+//@ submit-requires [C07 C08 C13] cmd.Time >= now0() && cmd.Time <= now()
 //@ props C16 C17 C02 C20 C07 C08
 //@ records handler
 // every returned record is the row it was scanned from, column by column (C01, C20: what a sweep or a search reports is what is stored)
@@ -402,6 +414,8 @@ package sqlite
 //@ ensures err == nil ==> result != nil
 
 //@ func (*SqliteStoreWorker).readEnqueueableTasks
+// the sweep asks with the server clock of its own step
+//@ submit-requires [C08 C13] cmd.Time >= now0() && cmd.Time <= now()
 //@ props C16 C17 C02 C20 C07 C08
 //@ records handler
 // every returned record is the row it was scanned from, column by column (C01, C20: what a sweep or a search reports is what is stored)
